@@ -264,6 +264,9 @@ def run(ctx):
         kw = {}
         if fam == 'ugrid' and n % 3 == 0:
             kw = dict(w=rng.randint(3, 5), h=rng.randint(3, 4))       # enough faces for the tree order to matter
+        if fam == 'ugrid' and n == 5:
+            # the edges are known only through an edge_face table: no edge_dimension attribute, no edge_node table
+            kw = dict(w=3, h=2, supplied={'edge_face'}, edge_dim_declared=False, transposed=False)
         if fam == 'ugrid' and n == 4:
             # one-based face_node; the edge tables zero-based without a start_index attribute (each variable has its own base)
             kw = dict(w=3, h=3, start_index=1, supplied={'edge_node', 'face_edge'}, bare_zero_based=('edge_node', 'face_edge'),
@@ -295,7 +298,13 @@ def run(ctx):
         else:
             topo = ems.topology
             fn = rows_compressed(topo.face_node_array)
-            has_edges = topo.has_edge_dimension
+            has_edges = bool(d.spec['has_edge_dim'])
+            if bool(topo.has_edge_dimension) != has_edges:
+                # (edges named by an edge_dimension attribute or implied by either edge table are part of the mesh)
+                ctx.report('property', f'the mesh {"has" if has_edges else "has no"} edge dimension (declared or implied by its edge tables) '
+                           f'but the convention says has_edge_dimension={topo.has_edge_dimension}: the edges of marked faces '
+                           f'cannot be marked', {'dataset': d.spec['label']})
+                continue
             fe = rows_compressed(topo.face_edge_array) if has_edges else None
             fe_lit = f'(Some {to_coq(fe)})' if has_edges else 'None'
             nn = topo.node_count
